@@ -109,3 +109,45 @@ func FuzzC07Bytes(f *testing.F) {
 		}
 	})
 }
+
+// rapid-generator targets for the remaining properties (same generators and
+// oracles as the rapid tests; the fuzzer's coverage feedback steers the draw
+// stream instead of rapid's own bias).
+func fuzzVia(f *testing.F, name string, gen func(*rapid.T) interface{}) {
+	addSeeds(f)
+	f.Fuzz(rapid.MakeFuzz(fuzzProp(name, gen)))
+}
+
+func FuzzC05(f *testing.F) {
+	fuzzVia(f, "C05Extents", func(rt *rapid.T) interface{} { return genC05(rt) })
+}
+func FuzzC05Typed(f *testing.F) {
+	fuzzVia(f, "C05Typed", func(rt *rapid.T) interface{} { return genC05Typed(rt) })
+}
+func FuzzC06(f *testing.F) {
+	fuzzVia(f, "C06Wrap", func(rt *rapid.T) interface{} { return genC06(rt) })
+}
+func FuzzC08(f *testing.F) {
+	fuzzVia(f, "C08Compose", func(rt *rapid.T) interface{} { return genC08(rt) })
+}
+func FuzzC11Panic(f *testing.F) {
+	fuzzVia(f, "C11Panic", func(rt *rapid.T) interface{} { return genPanicSpec(rt) })
+}
+func FuzzC11Edge(f *testing.F) {
+	fuzzVia(f, "C11Edge", func(rt *rapid.T) interface{} { return genEdge(rt) })
+}
+func FuzzC12(f *testing.F) {
+	fuzzVia(f, "C12Hist", func(rt *rapid.T) interface{} { return genC12Hist(rt) })
+}
+func FuzzC13(f *testing.F) {
+	fuzzVia(f, "C13Acc", func(rt *rapid.T) interface{} { return genC13(rt) })
+}
+func FuzzC15(f *testing.F) {
+	fuzzVia(f, "C15Errorf", func(rt *rapid.T) interface{} { return genC15(rt) })
+}
+func FuzzC16(f *testing.F) {
+	fuzzVia(f, "C16Routes", func(rt *rapid.T) interface{} { return genC16(rt) })
+}
+func FuzzC17(f *testing.F) {
+	fuzzVia(f, "C17Hook", func(rt *rapid.T) interface{} { return genC17(rt) })
+}
